@@ -44,12 +44,6 @@ def coerce_max_errors(max_errors):
     return max_errors
 
 
-def thread(fn):
-    t = threading.Thread(target=fn)
-    t.start()
-    return t
-
-
 DONE = object()
 
 
@@ -64,19 +58,31 @@ def worker_thread(queue, process_item):
             finally:
                 queue.task_done()
 
-    return thread(process_items)
+    return threading.Thread(target=process_items)
 
 
 @contextmanager
-def worker_pool(queue, process_item, worker_count):
+def worker_pool(queue, process_item, worker_count, shutdown):
+    """
+    Run ``worker_count`` worker threads for the duration of the context.
+
+    ``shutdown`` is called on exit, before the workers are joined; it must make every worker return.
+    It is called on every exit path, including an exception (e.g. ``KeyboardInterrupt``) raised while the
+    workers are still being created.
+    """
     workers = []
     try:
         for _ in range(worker_count):
-            workers.append(worker_thread(queue, process_item))
+            worker = worker_thread(queue, process_item)
+            # Register the worker before starting it, so that it is joined even if starting it is interrupted.
+            workers.append(worker)
+            worker.start()
         yield
     finally:
+        shutdown()
         for worker in workers:
-            worker.join()
+            if worker.is_alive():
+                worker.join()
 
 
 class PreparedNodes(NamedTuple):
@@ -154,13 +160,14 @@ def run_function_on_graph(
                         if remaining_pred_count_mapping[successor] == 0:
                             queue.put(successor)
 
-    with worker_pool(queue, process_node, worker_count):
-        try:
-            queue.join()
-        finally:
-            stop = True
-            for _ in range(worker_count):
-                queue.put(DONE)
+    def shutdown():
+        nonlocal stop
+        stop = True
+        for _ in range(worker_count):
+            queue.put(DONE)
+
+    with worker_pool(queue, process_node, worker_count, shutdown):
+        queue.join()
 
     if first_node_error:
         raise first_node_error
